@@ -36,4 +36,9 @@ CLAIMS["C07"] = {
     "text": "Decides: the stored value is exactly and_then(headers.get(\"X-Retry-After\"), v -> to_str(v).and_then(parse::<u64>) ? Some(from_secs(min(s,86400))) : None); its evaluation dominates the HTTP status test and lies on every path from a verified response, in the single exchange function shared by all request kinds; the field has no other writer; on change the write is followed by ProtocolStateChange, persist and commit in that order before the exchange returns; the storage key is written as as_micros->i64 and read back as i64->u64->from_micros.",
     "note": "What str::parse::<u64> accepts (e.g. a leading '+') is core's contract. Durability of commit is the Storage contract.",
 }
+CLAIMS["C08"] = {
+    "technique": "field-writer census with outcome-edge dominance (only-under / always-under) on the interprocedural CFG, must-pass-through for persist/commit ordering, storage-key writer/reader term comparison",
+    "text": "Decides on every CFG path: the failure counter is reset only/always under check Ok and ping parsed Ok, incremented by one only/always/once under failed checks and failed pings, with no stray writer; last_update_time is written (with TimeSource::now) only/always under check Ok, Err(ResponseParser|InstallPlan) and ping success; after the final events the context, the app set and a commit follow in order before the check returns (and for every ping outcome); each context key has one typed writer and reader with paired units, zero stored as absent, Context::load awaited in build(); every storage write is followed by a commit before the next request, reboot or policy decision.",
+    "note": "Crash atomicity and durability of commit are the Storage contract; the crash-point quantifier is reduced to write-group/commit pairing. Paths through a failed storage operation are exempt here and covered by C14.",
+}
 NOT_APPLICABLE = {}
